@@ -100,6 +100,29 @@ impl<'a> FilterDataProvider for WrappedBlockView<'a> {
     }
 }
 
+
+/// Crash / pause points for the verification harness (cargo feature `verif` only): called before
+/// every write that reaches the database.
+#[cfg(feature = "verif")]
+pub(crate) mod verif_hook {
+    use std::cell::Cell;
+    thread_local! {
+        /// writes attempted on this thread so far
+        pub(crate) static WRITES: Cell<u64> = Cell::new(0);
+        /// when non-zero: unwind instead of performing the write with this ordinal
+        pub(crate) static CRASH_AT: Cell<u64> = Cell::new(0);
+    }
+    pub(crate) fn before_write() {
+        let n = WRITES.with(|w| {
+            w.set(w.get() + 1);
+            w.get()
+        });
+        if CRASH_AT.with(|c| c.get()) == n {
+            panic!("verif: simulated crash before storage write {}", n);
+        }
+    }
+}
+
 #[derive(Clone)]
 pub struct Storage {
     pub(crate) db: Arc<DB>,
@@ -416,6 +439,8 @@ impl Storage {
         let key = Key::Meta(LAST_STATE_KEY).into_vec();
         let mut value = total_difficulty.to_le_bytes().to_vec();
         value.extend(tip_header.as_slice());
+        #[cfg(feature = "verif")]
+        verif_hook::before_write();
         self.db
             .put(key, &value)
             .expect("db put last state should be ok");
@@ -444,6 +469,8 @@ impl Storage {
             value.extend(header.number().to_le_bytes());
             value.extend(header.hash().as_slice());
         }
+        #[cfg(feature = "verif")]
+        verif_hook::before_write();
         self.db
             .put(key, &value)
             .expect("db put last n headers should be ok");
@@ -470,6 +497,8 @@ impl Storage {
     pub fn remove_matched_blocks(&self, start_number: u64) {
         let mut key = Key::Meta(MATCHED_FILTER_BLOCKS_KEY).into_vec();
         key.extend(start_number.to_be_bytes());
+        #[cfg(feature = "verif")]
+        verif_hook::before_write();
         self.db.delete(&key).expect("delete matched blocks");
     }
 
@@ -504,6 +533,8 @@ impl Storage {
             value.extend(block_hash.as_slice());
             value.push(u8::from(proved));
         }
+        #[cfg(feature = "verif")]
+        verif_hook::before_write();
         self.db
             .put(key, &value)
             .expect("db put matched blocks should be ok");
@@ -598,6 +629,8 @@ impl Storage {
     pub fn update_min_filtered_block_number(&self, block_number: BlockNumber) {
         let key = Key::Meta(MIN_FILTERED_BLOCK_NUMBER).into_vec();
         let value = block_number.to_le_bytes();
+        #[cfg(feature = "verif")]
+        verif_hook::before_write();
         self.db
             .put(key, value)
             .expect("db put min filtered block number should be ok");
@@ -625,6 +658,8 @@ impl Storage {
     pub fn update_max_check_point_index(&self, index: CpIndex) {
         let key = Key::Meta(MAX_CHECK_POINT_INDEX).into_vec();
         let value = index.to_be_bytes();
+        #[cfg(feature = "verif")]
+        verif_hook::before_write();
         self.db
             .put(key, value)
             .expect("db put max check point index should be ok");
@@ -1296,6 +1331,8 @@ impl Batch {
     }
 
     fn commit(self) -> Result<()> {
+        #[cfg(feature = "verif")]
+        verif_hook::before_write();
         self.db.write(&self.wb)?;
         Ok(())
     }
